@@ -141,6 +141,33 @@ func genEnvCase(t *rapid.T) *EnvCase {
 		// struct forms that can mean the very same Go type with another yae type
 		forms1 = []string{"raw", "struct", "struct", "map", "maprows", "maprows", "dyn", "ptr", c.Form0, c.Form0, c.Form0, c.Form0, c.Form0, c.Form0}
 	}
+	if _, taken := c.Vals["seg"]; !taken && c.Form0 == "rawshared" && rapid.IntRange(0, 1).Draw(t, "seg") == 0 {
+		// one composite type (point) occurring several times inside one binding's type - as one
+		// shared type object in the compile-time types.Env - and a run-time value that matches
+		// at the first occurrence and differs at a later one
+		point := m.Obj(m.Field{Name: "x", T: m.Num}, m.Field{Name: "y", T: m.Num})
+		bad := m.Obj(m.Field{Name: "x", T: m.Num}, m.Field{Name: "y", T: m.Str})
+		pt := func(t *m.Type) *m.Val {
+			if t == point {
+				return m.VObj(point, m.VNum(1), m.VNum(2))
+			}
+			return m.VObj(bad, m.VNum(1), m.VStr("2"))
+		}
+		mk := func(late *m.Type, where int) *m.Val {
+			ts := []*m.Type{point, point, point}
+			ts[where] = late
+			st := m.Obj(m.Field{Name: "from", T: ts[0]}, m.Field{Name: "to", T: ts[1]}, m.Field{Name: "via", T: m.List(ts[2])})
+			return m.VObj(st, pt(ts[0]), pt(ts[1]), m.VList(ts[2], pt(ts[2])))
+		}
+		good := mk(point, 1)
+		c.Vals["seg"], c.Env["seg"] = good, good.T
+		if rapid.IntRange(0, 2).Draw(t, "segbad") > 0 {
+			c.Vals1["seg"] = mk(bad, rapid.IntRange(1, 2).Draw(t, "segwhere"))
+			c.Muts = append(c.Muts, "retype-later-occurrence:seg")
+		} else {
+			c.Vals1["seg"] = good
+		}
+	}
 	c.Form1 = forms1[rapid.IntRange(0, len(forms1)-1).Draw(t, "form1")]
 	if c.Form1 == "rawshared" {
 		c.Form1 = "raw" // sharing is a matter of the compile-time types.Env only
